@@ -9,12 +9,16 @@ static void c03_run(vf_case *c)
     gen_spec_random(r, P, &g, 1, 60, 1);
     if (g.pattern == PAT_RANDOM && rng_bool(r, 0.7)) g.pattern = PAT_RANDOM_DIAG;
     if (g.pattern == PAT_STAIR && rng_bool(r, 0.5)) g.pattern = PAT_BLOCKTRI;
+    int growthy = rng_bool(r, 0.3);       /* fill-heavy pattern + fill estimate 1 + fill-preserving order: many in-flight expansions of every array */
+    if (growthy) { static const int gp[] = { PAT_ARROW, PAT_LOWERDENSE, PAT_GRID, PAT_DENSE, PAT_BLOCKTRI }; g.pattern = rng_pick(r, gp, 5); if (g.n < 8) g.n = g.m = rng_int(r, 8, 40); }
     int tall = route <= 2 && rng_bool(r, 0.3);
     if (tall) g.m = g.n + rng_int(r, 1, 1 + g.n / 2);
     vf_mat A; gen_matrix(r, P, &g, &A);
     gen_run_opts(r, &o, 1);
     if (tall && o.opt.ColPerm == MMD_AT_PLUS_A) o.opt.ColPerm = COLAMD;
     gen_tuning(r, rng_bool(r, 0.9));
+    if (g.pattern == PAT_LOWERDENSE && rng_bool(r, 0.6)) { o.opt.ColPerm = NATURAL; o.opt.SymmetricMode = NO; vf_ienv_set(1, rng_int(r, 6, 8)); vf_ienv_set(3, rng_int(r, 5, 10)); vf_ienv_set(2, rng_int(r, 1, 2)); }
+    if (growthy) { vf_ienv_set(6, 1); if (rng_bool(r, 0.7)) o.opt.ColPerm = rng_bool(r, 0.5) ? NATURAL : MY_PERMC; if (rng_bool(r, 0.5)) { int ms = rng_int(r, 1, 3); vf_ienv_set(3, ms); vf_ienv_set(7, ms); vf_ienv_set(2, 1); } vf_tag(c, "growthy"); }
     int n = A.n, m = A.m;
     int *mypc = malloc(sizeof(int) * (size_t)(n + 1)); rng_perm(r, mypc, n);
     const char *rn = route <= 2 ? "gstrf" : route <= 4 ? "gssv" : route <= 7 ? "gssvx" : "gsisx";
@@ -58,6 +62,7 @@ static void c03_run(vf_case *c)
     else if (ok_info) {
         judged = 1;
         if (structure_ok(P, Lp, Up, m, n, ilu, why, sizeof why)) vf_viol(c, ilu ? "ilu-structure" : "structure", "%s: %s", rn, why);
+        { int ex = route <= 2 ? R.stat.expansions : route <= 4 ? stat.expansions : D.stat.expansions; vf_tag(c, "expansions=%d", ex > 3 ? 3 : ex); if (ex > c->counters[2]) c->counters[2] = ex; }
         int ns, mx, mu; snode_stats(Lp, &ns, &mx, &mu); vf_tag(c, "maxsnode=%d", mx > 4 ? 4 : mx); c->counters[0] += mu; c->counters[1] += ns;
         if (ilu) { const NCformat *Us = Up->Store; int rep = 0; unsigned char *seen = calloc((size_t)n + 1, 1);
             for (int j = 0; j < n && !rep; j++) { for (int_t q = Us->colptr[j]; q < Us->colptr[j + 1]; q++) { if (seen[Us->rowind[q]]) rep = 1; seen[Us->rowind[q]] = 1; } for (int_t q = Us->colptr[j]; q < Us->colptr[j + 1]; q++) seen[Us->rowind[q]] = 0; }
